@@ -115,17 +115,20 @@ def example_pair(rnd, out, N):
 
 
 # ------------------------------------------------------------------ U-seq: classes with several rules of different constructors
-def useq_pair(rnd, out, N, tag):
+def useq_pair(rnd, out, N, tag, sym=False):
     """two random one-letter grammar universes of the same shape (union and product descriptions of the same sequences,
     aliases that are not declared equivalences), both expanded completely, then both finders"""
     import useq
     from comb_spec_searcher.exception import NoMoreClassesToExpandError
 
     g1, g2 = f"{tag}a", f"{tag}b"
-    plan = useq.rand_plan(rnd)
-    useq.rand_grammar(rnd, g1, plan)
-    r = rnd.random()
-    useq.rand_grammar(rnd, g2, plan if r < 0.4 else (useq.vary(rnd, plan) if r < 0.85 else useq.rand_plan(rnd)))
+    if sym:
+        useq.rand_sym_pair(rnd, g1, g2)
+    else:
+        plan = useq.rand_plan(rnd)
+        useq.rand_grammar(rnd, g1, plan)
+        r = rnd.random()
+        useq.rand_grammar(rnd, g2, plan if r < 0.4 else (useq.vary(rnd, plan) if r < 0.85 else useq.rand_plan(rnd)))
     if not (useq.well_formed(g1) and useq.well_formed(g2)):
         raise RuntimeError("harness: ill-formed U-seq grammar")
     desc = {"useq": True, "grammar1": {k: v for k, v in useq.GRAMMARS[g1].items()}, "grammar2": {k: v for k, v in useq.GRAMMARS[g2].items()}}
@@ -185,7 +188,7 @@ def worker(args):
                 example_pair(rnd, out, N)
                 continue
             if rnd.random() < 0.4:
-                useq_pair(rnd, out, N, f"g{seed}_{out['pairs']}")
+                useq_pair(rnd, out, N, f"g{seed}_{out['pairs']}", sym=rnd.random() < 0.5)
                 continue
             alpha = rnd.choice(["ab", "ab", "abc"])
             p1 = upword.rand_patterns(rnd, alpha, 3, 3)
